@@ -1,5 +1,5 @@
 (** C02 - No task is lost or stuck: runnable work always gets run, jobs terminate. *)
-From HQ Require Import Base.Prelude Cluster.Types Cluster.Core Cluster.Reactor Cluster.Worker Cluster.Server Cluster.Sys Cluster.Monitors Cluster.ProofsJob Cluster.ProofsCore Cluster.ProofsMore Cluster.BijBase Cluster.BijFinal Cluster.BijWitness Cluster.RejHyp Cluster.InvWFinal Cluster.InvAll Cluster.NoPanicU0 Cluster.NoPanicU1 Cluster.NoPanicU20 Cluster.NoFresh Cluster.RestU1 Cluster.RestU12 Cluster.RestU13.
+From HQ Require Import Base.Prelude Cluster.Types Cluster.Core Cluster.Reactor Cluster.Worker Cluster.Server Cluster.Sys Cluster.Monitors Cluster.ProofsJob Cluster.ProofsCore Cluster.ProofsMore Cluster.BijBase Cluster.BijFinal Cluster.BijWitness Cluster.RejHyp Cluster.InvWFinal Cluster.InvAll Cluster.NoPanicU0 Cluster.NoPanicU1 Cluster.NoPanicU20 Cluster.NoFresh Cluster.RestU1 Cluster.RestU12 Cluster.RestU13 Cluster.InvBundle Cluster.NoWf.
 From Coq Require Import ZArith.
 Local Open Scope N_scope.
 
@@ -146,6 +146,17 @@ Theorem C02_at_rest_no_assigned : forall ops reserve maxfill s outs,
   at_rest s -> forall w wk a p f, find_worker (c_workers (s_core s)) w = Some wk -> w_assign wk = Sn a p f -> a = [].
 Proof. exact at_rest_no_assigned. Qed.
 
+(** The hypothesis [op_wf] can be dropped from every statement about reachable states: since the
+    repair of finding F26 an operation that is not [op_wf] is refused (a stutter step), so every
+    reachable state is reachable by a well-formed history. *)
+Theorem C02_op_wf_not_needed : forall (P : sys -> Prop) r m,
+  (forall ops s outs, Forall op_wf ops -> ops_ok (init_sys r m) ops = true -> run (init_sys r m) ops = Ok (s, outs) -> P s) ->
+  forall ops s outs, ops_ok (init_sys r m) ops = true -> run (init_sys r m) ops = Ok (s, outs) -> P s.
+Proof. exact reach_drop_wf. Qed.
+Theorem C02_all_invariants_inputs_only : forall ops r m s outs,
+  ops_ok (init_sys r m) ops = true -> run (init_sys r m) ops = Ok (s, outs) -> INV s /\ PROTO s.
+Proof. exact reachable_all_nowf. Qed.
+
 Print Assumptions C02_queue_invariant.
 Print Assumptions C02_worker_sets_invariant.
 Print Assumptions C02_no_phantom_no_orphan.
@@ -160,3 +171,5 @@ Print Assumptions C02_at_rest_all_waiting.
 Print Assumptions C02_at_rest_monitor.
 Print Assumptions C02_at_rest_no_redirects.
 Print Assumptions C02_at_rest_no_assigned.
+Print Assumptions C02_op_wf_not_needed.
+Print Assumptions C02_all_invariants_inputs_only.
